@@ -40,5 +40,8 @@ def run_doc(out, roles):
     hs = hdefs(out.tier, roles)
     out.bounds["document_api"] = ("LuaDocument harnesses: every byte-width shape of <= %d characters over %s"
                                   % ((2, "{1,2,4}") if out.tier == "quick" else (3, "{1,2,3,4}")))
-    run_k(out, "doc", "check", hs, jobs=14, harness_timeout=1500 if out.tier == "quick" else 3600,
-          overall_timeout=2400 if out.tier == "quick" else 6 * 3600, mem_gb=12, tag="doc")
+    # thorough: the Kani driver itself keeps the output of all harnesses and outgrew a 12 GB address-space limit
+    # (the harnesses in flight were lost: exit 2), so the limit is wider and fewer solvers run at once
+    quick = out.tier == "quick"
+    run_k(out, "doc", "check", hs, jobs=14 if quick else 10, harness_timeout=1500 if quick else 3600,
+          overall_timeout=2400 if quick else 6 * 3600, mem_gb=12 if quick else 32, tag="doc")
